@@ -101,10 +101,13 @@ struct CciRef {
 	h: Hist<f64>,
 	t: usize,
 	mag: Mag,
+	x0: f64,
+	/// an input different from the construction value has been seen
+	changed: bool,
 }
 impl CciRef {
 	fn new(n: usize, x0: f64) -> Self {
-		Self { h: Hist::new(n, x0), t: 0, mag: Mag::new(x0) }
+		Self { h: Hist::new(n, x0), t: 0, mag: Mag::new(x0), x0, changed: false }
 	}
 	fn next(&mut self, x: f64) -> Option<Ap> {
 		self.h.push(x);
@@ -112,7 +115,11 @@ impl CciRef {
 		let w: Vec<f64> = self.h.iter().copied().collect();
 		let n = w.len();
 		self.t += 1;
-		if w.iter().all(|y| *y == w[0]) && self.t <= 1 {
+		self.changed |= x != self.x0;
+		// exactly 0 only while nothing but the construction value has ever been seen (no running sum has moved);
+		// any later flat window - always, for n = 1 - is a quotient of rounding residues: undecidable here, the
+		// residue-ratio findings of C07/C08 record it
+		if !self.changed {
 			return Some(ex(0.0));
 		}
 		let mean = Ap::new(win::mean(&w), allow(n, self.t, m, 1.0));
@@ -791,6 +798,8 @@ pub fn run(c: &VCase, st: &mut Stats) -> CaseResult {
 	let p = cfggen::max_period(&cj) as usize;
 	let mut compared = 0u64;
 	let mut cut_at = None;
+	// (the initial candle is the first candle of the stream and is fed again, as the API prescribes; what `init`
+	// takes from a candle that is NOT fed again is outside the documented usage and outside this property)
 	for (t, k) in cs.iter().enumerate() {
 		let res = inst.next(&k.candle());
 		let got: Vec<f64> = res.values().iter().map(|x| *x as f64).collect();
